@@ -1,7 +1,13 @@
 """C08 -- SMC evidence is the accumulated product of incremental ratios
-(loop harness, DESIGN 6/C08)."""
+(loop harness, DESIGN 6/C08), plus a function-level FP-sort harness for the
+per-step ratio on populations that contain zero-weight (log-likelihood -inf)
+particles, which the real sort cannot represent."""
 
-from harness.common import main
+import math
+
+import numpy as np
+
+from harness.common import core, main, sx, z3
 from harness.loop_base import LoopCheck
 
 
@@ -9,7 +15,96 @@ class C08(LoopCheck):
     pid = "C08"
     props = {"C08"}
     flows = ("plain",)
-    required_labels = ["c08/step_ratio", "c08/step_variance", "c08/evidence_is_sum", "c08/error_is_root_sum_var"]
+    required_labels = ["c08/step_ratio", "c08/step_variance", "c08/evidence_is_sum", "c08/error_is_root_sum_var", "c08/fp_ratio_mean_over_all"]
+
+    def configs(self, tier):
+        out = super().configs(tier)
+        for n in ([2] if tier == "quick" else [2, 3]):
+            out.append({"name": f"fp-ratio-N{n}", "kind": "fp_ratio", "flow": "fp_ratio", "N": n, "timeout_ms": 120000})
+        return out
+
+    def ctx_for(self, cfg, seed):
+        if cfg.get("kind") == "fp_ratio":
+            return sx.Ctx(self.pid, seed=seed, timeout_ms=cfg.get("timeout_ms", 120000), sort="F", fp_bits=64)
+        return super().ctx_for(cfg, seed)
+
+    def harness(self, cfg):
+        if cfg.get("kind") == "fp_ratio":
+            return self.h_fp_ratio(cfg)
+        return super().harness(cfg)
+
+    def h_fp_ratio(self, cfg):
+        from aspire.samples import SMCSamples
+
+        N = cfg["N"]
+
+        def h(ctx):
+            S = sx.OPS.sort
+            ctx.notes["fp_exact_timeout_ms"] = 30000
+            ll = sx.sym("ll", N)
+            t = sx.terms(ll)
+            minf = z3.fpMinusInfinity(S)
+            bound = z3.FPVal(1e4, S)
+            fin = lambda v: z3.And(z3.fpLEQ(v, bound), z3.fpGEQ(v, z3.fpNeg(bound)))  # noqa: E731
+            # particle 0 has positive weight; any other may have zero weight
+            ctx.add_assume(fin(t[0]))
+            for v in t[1:]:
+                ctx.add_assume(z3.Or(v == minf, fin(v)))
+            zero = sx.zeros(N)
+            s = SMCSamples(x=sx.zeros((N, 1)), log_likelihood=ll, log_prior=zero, log_q=zero, beta=0.0, xp=sx)
+            r = sx.term(s.log_evidence_ratio(1.0))
+            # which particles carry weight is decided per path
+            finite = [ctx.branch(z3.Not(v == minf)) for v in t]
+            n_fin = sum(1 for f in finite if f)
+            ctx.prove(z3.Not(z3.fpIsNaN(r)), "c08/fp_ratio_not_nan")
+            # The ratio is the log of the MEAN over all N particles: it must be
+            # the (separately verified, C02) logsumexp of the incremental
+            # log-weights of ALL particles minus log N -- in particular the
+            # zero-weight particles count in the denominator.  Compared as FP
+            # terms: identical on the current code; a different normaliser or a
+            # sum over a subset gives a different term, refuted by a witness.
+            from aspire.utils import logsumexp
+
+            spec = sx.term(logsumexp(s.unnormalized_log_weights(1.0)) - math.log(N))
+            ctx.prove(z3.Or(r == spec, z3.And(z3.fpIsNaN(r), z3.fpIsNaN(spec))), "c08/fp_ratio_mean_over_all", detail={"n_finite": n_fin, "N": N})
+
+        return h
+
+    def to_cex(self, fl):
+        if fl["cfg"].get("kind") == "fp_ratio":
+            return {"cfg": fl["cfg"], "label": fl["label"], "detail": fl.get("detail"), "ll": [fl["env"].get(f"ll_{i}") for i in range(fl["cfg"]["N"])]}
+        return super().to_cex(fl)
+
+    def replay(self, cex):
+        if cex["cfg"].get("kind") == "fp_ratio":
+            return replay_fp_ratio(cex)
+        return super().replay(cex)
+
+
+def replay_fp_ratio(cex):
+    from scipy.special import logsumexp
+
+    from aspire.samples import SMCSamples
+
+    N = cex["cfg"]["N"]
+    cands = []
+    ll = [(-math.inf if v is None else float(v)) for v in cex["ll"]]
+    cands.append(ll)
+    # the same pattern of zero-weight particles with equal finite weights
+    pat = [math.isfinite(v) for v in ll]
+    cands.append([1.5 if p else -math.inf for p in pat])
+    bad = []
+    for c in cands:
+        w = np.asarray(c, float)
+        if not np.isfinite(w[0]) or np.isnan(w).any():
+            continue
+        s = SMCSamples(x=np.zeros((N, 1)), log_likelihood=w, log_prior=np.zeros(N), log_q=np.zeros(N), beta=0.0)
+        with np.errstate(all="ignore"):
+            got = float(s.log_evidence_ratio(1.0))
+        want = float(logsumexp(w) - math.log(N))
+        if not (abs(got - want) <= 1e-9 * max(1.0, abs(want))):
+            bad.append(f"log-weights {c}: ratio {got!r}, log of the mean over all {N} particles {want!r}")
+    return (len(bad) > 0, "; ".join(bad[:2]) if bad else "ratio is the log mean weight over all particles")
 
 
 if __name__ == "__main__":
